@@ -196,3 +196,13 @@ func (rm *RegistrationManager) VerifDumpFull() string {
 
 // VerifHandleRegUpdates runs the real pipeline.
 func (rm *RegistrationManager) VerifSetWorkers(n int) { rm.IngestWorkerCount = n }
+
+// VerifCountDetector replaces the two detector closures by atomic counters (safe to use from
+// free-running goroutines; touches nothing of the registration).
+func (rm *RegistrationManager) VerifCountDetector(news, updates *int64) {
+	rm.registeredDecoys.registerForDetector = func(d *DecoyRegistration) { atomic.AddInt64(news, 1) }
+	rm.registeredDecoys.updateInDetector = func(d *DecoyRegistration) { atomic.AddInt64(updates, 1) }
+}
+
+// VerifTotalLocked is what the statistics printer calls.
+func (rm *RegistrationManager) VerifTotalLocked() int { return rm.registeredDecoys.TotalRegistrations() }
